@@ -541,7 +541,7 @@ func (t *ZeroAllocTokenizer) TokenizeHtmlPreserving() ([]Token, error) {
 			} else {
 				// Process variable tags with optimized tokenization
 				if len(tagContent) > 0 {
-					if !strings.ContainsAny(tagContent, ".|[](){}\"',+-*/=!<>%&^~") {
+					if isSimpleIdentifier(tagContent) {
 						// Simple variable name
 						identifier := t.GetStringConstant(tagContent)
 						t.AddToken(TOKEN_NAME, identifier, t.line)
@@ -824,6 +824,20 @@ func (t *ZeroAllocTokenizer) tokenizeTemplatePath(path string) {
 		// Otherwise tokenize as expression
 		t.TokenizeExpression(path)
 	}
+}
+
+// isSimpleIdentifier reports whether s is a single variable name, the only
+// kind of print-tag body that may skip expression tokenization
+func isSimpleIdentifier(s string) bool {
+	if len(s) == 0 || !(isCharAlpha(s[0]) || s[0] == '_') {
+		return false
+	}
+	for i := 1; i < len(s); i++ {
+		if !(isCharAlpha(s[i]) || isDigit(s[i]) || s[i] == '_') {
+			return false
+		}
+	}
+	return true
 }
 
 // isCharAlpha checks if a byte is an alphabetic character
@@ -1269,7 +1283,7 @@ func (t *ZeroAllocTokenizer) TokenizeOptimized() ([]Token, error) {
 				// Process variable tags using optimized tokenization
 				if len(tagContent) > 0 {
 					// Check if it's a simple variable or a complex expression
-					if !strings.ContainsAny(tagContent, ".|[](){}\"',+-*/=!<>%&^~") {
+					if isSimpleIdentifier(tagContent) {
 						// Simple variable name - use string interning for efficiency
 						identifier := Intern(tagContent)
 						t.AddToken(TOKEN_NAME, identifier, t.line)
